@@ -18,6 +18,15 @@ Relational oracle, straight from the property text:
                   extension differs between S1 and S2) and C13.history.lookup_by_previous_short_form (a tag not written in
                   short form); every other case is under C13.history.judged_by_validating_schema /
                   .forms_follow_validating_schema / .own_validate_uses_parsing_schema
+  * configuration history : the same two clauses (prefixed / unprefixed judged as alone) for schema OBJECTS with a past: an
+                  object that was USED (annotations validated with it, get_tags_with_attribute asked) BEFORE it received its
+                  prefix - HedSchema.set_schema_prefix after unprefixed use, re-prefixing after use under another prefix, the
+                  prefix taken away again, an unmerged copy of a library file loaded with schema_namespace= after the cached
+                  standard schema it is built on was used, HedSchemaGroup built from objects that were used on their own, the
+                  standard member prefixed after use.  Annotations exercise the unique tag (Event-context: once, repeated,
+                  long / lower-case spellings), required tags and further unique tags (edited copies of the 8.2.0 libraries:
+                  no bundled schema has a required tag), plus a sample of the general annotations; and the names that
+                  get_tags_with_attribute advertises carry the prefix the object has NOW.
 Annotations are generated per member schema from its own vocabulary (standard tags, library tags, value tags with and
 without units, extensions, long forms, invalid and structural cases, non-ASCII values and extensions).  The groups include
 all-prefixed ones (no unprefixed member) for every offline pairing.  One narrow clause (defect of the unchanged tree, labelled
@@ -422,6 +431,246 @@ def run_history(w, gi, n_tags, count=True, only=None):
 
 
 # ------------------------------------------------------------------------------------------------------------------
+# configuration histories: schema objects that were used before they got their prefix
+# ------------------------------------------------------------------------------------------------------------------
+# (standard version, library version, prefix, edit of the library or None); all pairings lie on one side of generation 8.3.0
+CONFIG_PAIRINGS = [
+    ("8.2.0", "testlib_2.0.0", "tl:", {"required": ["B-nonextension"], "unique": ["Flute-sound", "A-nonextension"]}),
+    ("8.3.0", "score_2.0.0", "sc:", None),
+    ("8.2.0", "testlib_2.0.0", "tl:", None),
+    ("8.2.0", "score_1.1.0", "sc:", None),          # from here on: thorough tier only
+    ("8.2.0", "testlib_3.0.0", "Tl:", {"required": ["Piano-sound"], "unique": ["F-nonextension"]}),
+    ("8.2.0", "testlib_3.0.0", "tl:", None),
+]
+CONFIG_HISTORIES = ["set_prefix_after_unprefixed_use", "reprefix_after_use_under_another_prefix", "prefix_removed_after_prefixed_use",
+                    "used_single_schema_given_prefix", "unmerged_file_loaded_with_namespace_after_standard_was_used",
+                    "group_built_from_objects_used_alone", "standard_member_prefixed_after_use"]
+LOOKUP_ATTRIBUTES = ["unique", "required", "topLevelTagGroup", "tagGroup", "requireChild", "reserved", "extensionAllowed", "takesValue",
+                     "relatedTag"]
+CL_LOOKUP = "C13.history.attribute_lookup_follows_current_prefix"
+
+
+UNMERGED_AFTER_USE = "unmerged_file_loaded_with_namespace_after_standard_was_used"
+# narrow (defect of the unchanged tree): a partnered library loaded from its UNMERGED file is built on a deep copy of the cached
+# standard schema; when that standard schema has answered get_tags_with_attribute before, the copy keeps the standard's finished
+# attribute lists, so the library's own tags never appear in them (its own unique / required tags are not enforced)
+CL_STALE_COPY = "C13.history.unmerged_library_keeps_attribute_lists_of_used_standard"
+
+
+def _own_tag(alone, name):
+    e = alone.tags.get(name)
+    return e is not None and e.has_attribute("inLibrary")
+
+
+def _without_own_attribute_issues(verdict):
+    return [v for v in verdict if v[0] not in ("REQUIRED_TAG_MISSING", "TAG_NOT_UNIQUE")] if isinstance(verdict, list) else verdict
+
+
+def _head_diff(a, b):
+    """the first entries of a that are not in b (else the head of a)"""
+    if isinstance(a, str) or isinstance(b, str):
+        return a
+    other = set(b)
+    d = [x for x in a if x not in other]
+    return {"count": len(a), "not_in_other": d[:5]} if d else {"count": len(a), "head": a[:3]}
+
+
+def _edited_library_file(version, edit, folder):
+    """a private copy of the bundled (merged) library file in which some of the library's own tags are required / unique"""
+    tree = ET.parse(_xml_path(version))
+    todo = {name: attr for attr, names in edit.items() for name in names}
+    for node in tree.getroot().iter("node"):
+        attr = todo.pop(node.findtext("name"), None)
+        if attr:
+            a = ET.SubElement(node, "attribute")
+            ET.SubElement(a, "name").text = attr
+    if todo:
+        raise ValueError("edit names not found in %s: %s" % (version, sorted(todo)))
+    path = os.path.join(folder, "HED_%s_edit_%s.xml" % (version, "_".join(sorted(n for ns in edit.values() for n in ns))))
+    tree.write(path, encoding="utf-8", xml_declaration=True)
+    return path
+
+
+def special_texts(uniques, requireds, x, y, long_of):
+    """annotations around unique and required tags; x: a tag of the library, y: a standard tag"""
+    out = []
+    for u in uniques:
+        out += ["(%s, %s)" % (u, x), "(%s, %s), (%s, %s)" % (u, x, u, y), "(%s, %s), %s, (%s, (%s))" % (u, x, y, u, y),
+                "(%s, %s), (%s, %s)" % (long_of(u), x, u, y), "(%s, %s), (%s, %s)" % (u.lower(), x, u.upper(), y),
+                "%s, %s" % (u, u), u, "(%s, %s), (%s, %s), (%s)" % (u, x, u, y, u), "%s, (%s, %s)" % (y, u, x),
+                "(%s), (%s)" % (u, u), "(%s, (%s, %s))" % (x, u, y)]
+    for r in requireds:
+        out += [r, "(%s, %s)" % (r, x), "%s, (%s, %s)" % (y, x, r), long_of(r), r.lower(), "%s, %s" % (r, r)]
+    out += [x, y, "%s, %s" % (x, y), "(%s, %s)" % (y, x)]        # nothing unique, nothing required
+    for u in uniques[:1]:
+        for r in requireds[:1]:
+            out += ["(%s, %s), %s" % (u, x, r), "(%s, %s), (%s, %s), %s" % (u, x, u, y, r)]
+    return list(dict.fromkeys(out))
+
+
+def _use(obj, texts, ns):
+    """what an earlier part of a program does with a schema object: validate a few annotations, ask for attribute lists"""
+    for t in texts:
+        observe(prefix_all(t, ns) if ns else t, obj, strip=ns)
+    for a in LOOKUP_ATTRIBUTES:
+        try:
+            obj.get_tags_with_attribute(a)
+        except Exception:  # noqa
+            pass
+
+
+def build_config_history(how, std_v, lib_path, lib_alone, p, use_texts, folder):
+    """-> (schema or group to validate with, {namespace: the member loaded alone, never prefixed}, schemas for the lookup check)"""
+    from hed.schema import load_schema, HedSchemaGroup
+    std_cached = load(std_v)
+    _use(std_cached, use_texts, "")
+    if how == "set_prefix_after_unprefixed_use":
+        lib = load_schema(lib_path)
+        _use(lib, use_texts, "")
+        lib.set_schema_prefix(p[:-1])
+        return HedSchemaGroup([std_cached, lib]), {"": std_cached, p: lib_alone}, {"": std_cached, p: lib}
+    if how == "reprefix_after_use_under_another_prefix":
+        lib = load_schema(lib_path, schema_namespace="zz")
+        _use(lib, use_texts, "zz:")
+        lib.set_schema_prefix(p)
+        return HedSchemaGroup([lib, std_cached]), {"": std_cached, p: lib_alone}, {"": std_cached, p: lib}
+    if how == "prefix_removed_after_prefixed_use":
+        lib = load_schema(lib_path, schema_namespace=p)
+        _use(lib, use_texts, p)
+        lib.set_schema_prefix("")
+        return lib, {"": lib_alone}, {"": lib}
+    if how == "used_single_schema_given_prefix":
+        lib = load_schema(lib_path)
+        _use(lib, use_texts, "")
+        lib.set_schema_prefix(p)
+        return lib, {p: lib_alone}, {p: lib}
+    if how == "unmerged_file_loaded_with_namespace_after_standard_was_used":
+        path = os.path.join(folder, "unmerged_%s" % os.path.basename(lib_path))
+        load_schema(lib_path).save_as_xml(path, save_merged=False)
+        lib = load_schema(path, schema_namespace=p[:-1])
+        return HedSchemaGroup([std_cached, lib]), {"": std_cached, p: lib_alone}, {"": std_cached, p: lib}
+    if how == "group_built_from_objects_used_alone":
+        std = load_schema(_xml_path(std_v))
+        _use(std, use_texts, "")
+        lib = load_schema(lib_path, schema_namespace=p)
+        _use(lib, use_texts, p)
+        return HedSchemaGroup([lib, std]), {"": std_cached, p: lib_alone}, {"": std, p: lib}
+    if how == "standard_member_prefixed_after_use":
+        std = load_schema(_xml_path(std_v))
+        _use(std, use_texts, "")
+        std.set_schema_prefix("st")
+        lib = load_schema(lib_path)
+        _use(lib, use_texts, "")
+        lib.set_schema_prefix(p)
+        return HedSchemaGroup([std, lib]), {"st:": std_cached, p: lib_alone}, {"st:": std, p: lib}
+    raise ValueError(how)
+
+
+def run_config_history(w, pi, n_tags, folder, count=True, only=None):
+    from hed.schema import load_schema
+    std_v, lib_v, p, edit = CONFIG_PAIRINGS[pi]
+    n = 0
+    try:
+        lib_path = _edited_library_file(lib_v, edit, folder) if edit else _xml_path(lib_v)
+        lib_alone = load_schema(lib_path) if edit else load(lib_v)         # never prefixed, the oracle's "p's schema alone"
+        std_alone = load(std_v)
+    except Exception as e:  # noqa
+        w.fail("C13.load.offline_pairing_loads", {"config_pairing": CONFIG_PAIRINGS[pi]}, repr(e)[:200], "both load")
+        return 0
+    own = sorted(e.short_tag_name for _, e in lib_alone.tags.items()
+                 if e.has_attribute("inLibrary") and not e.name.endswith("/#") and not e.has_attribute("unique")
+                 and not e.has_attribute("required") and not e.has_attribute("topLevelTagGroup") and not e.has_attribute("tagGroup"))
+    x, y = own[len(own) // 2], "Red"
+    uniques = ["Event-context"] + (edit or {}).get("unique", [])
+    requireds = (edit or {}).get("required", [])
+
+    def long_of(short):
+        return lib_alone.tags[short].long_tag_name
+
+    special = special_texts(uniques, requireds, x, y, long_of)
+    use_texts = special[1:4] + [x, "%s, Zork" % y]
+    texts = {}
+    for ns_alone in (lib_alone, std_alone):
+        general = annotations(w, ns_alone, n_tags)
+        sp = special if ns_alone is lib_alone else special_texts(["Event-context"], [], "Blue", y, lambda s: std_alone.tags[s].long_tag_name)
+        texts[id(ns_alone)] = sp + general[::2]
+    expected = {}
+    for how in CONFIG_HISTORIES:
+        if only is not None and only["config_history"] != how:
+            continue
+        inp0 = {"config_history": how, "config_pairing": pi, "standard": std_v, "library": lib_v, "library_edit": edit, "prefix": p}
+        try:
+            G, members, objs = build_config_history(how, std_v, lib_path, lib_alone, p, use_texts, folder)
+        except Exception as e:  # noqa
+            w.fail("C13.load.offline_pairing_loads", inp0, "EXC " + repr(e)[:300], "the configuration can be built")
+            continue
+        for ns, alone in members.items():
+            if only is not None and only.get("annotation") is None:
+                break           # replay of an attribute look-up
+            if requireds and alone is not lib_alone:
+                # a group advertises the required tags of ALL members, so the unprefixed / standard member of a group with a library
+                # that has required tags is outside what the offline pairings (none has a required tag) let the property say
+                continue
+            clause = "C13.prefixed.judged_as_alone" if ns else "C13.unprefixed.judged_as_alone"
+            for A in (texts[id(alone)] if only is None else [only["annotation"]]):
+                if only is not None and only["namespace"] != ns:
+                    continue
+                inp = dict(inp0, namespace=ns, annotation=A)
+                PA = prefix_all(A, ns) if ns else A
+                got, gforms = observe(PA, G, strip=ns)
+                if (id(alone), A) not in expected:
+                    expected[(id(alone), A)] = observe(A, alone)
+                exp, eforms = expected[(id(alone), A)]
+                n += 1
+                if count:
+                    w.case(key=("config", pi, how, ns, A), nontrivial=True,
+                           sample={"history": how, "annotation": PA, "codes": got if isinstance(got, str) else [g[0] for g in got]})
+                cl = clause
+                if ns and got != exp and _without_style(got) == _without_style(exp):
+                    cl = "C13.prefixed.capitalisation_warning_reads_prefix"
+                elif how == UNMERGED_AFTER_USE and edit and alone is lib_alone and _without_own_attribute_issues(got) == \
+                        _without_own_attribute_issues(exp):
+                    # narrow label (defect of the unchanged tree, see CL_STALE_COPY): the library has unique / required tags of its
+                    # own and the two verdicts differ in nothing but the issues that come from the advertised unique / required lists
+                    cl = CL_STALE_COPY
+                w.check(got == exp, cl, inp, got, exp, prefixed_text=PA)
+                if got == exp and not isinstance(got, str):
+                    w.check(gforms == eforms, "C13.forms.same_tag_forms_modulo_prefix", inp, gforms, eforms, prefixed_text=PA)
+        if only is not None and only.get("annotation") is not None:
+            continue
+        # the names advertised for an attribute carry the prefix the object has now; a group advertises the union
+        for a in LOOKUP_ATTRIBUTES:
+            inp = dict(inp0, attribute=a, annotation=None)
+            union, stale_own = set(), set()
+            for ns, obj in objs.items():
+                alone = members[ns]
+                want = sorted(ns + name for name in alone.get_tags_with_attribute(a))
+                union |= set(want)
+                n += 1
+                if count:
+                    w.case(key=("config-lookup", pi, how, ns, a), nontrivial=bool(want))
+                try:
+                    have = sorted(obj.get_tags_with_attribute(a))
+                except Exception as e:  # noqa
+                    have = "EXC " + repr(e)[:200]
+                cl = CL_LOOKUP
+                if how == UNMERGED_AFTER_USE and alone is lib_alone and have != want and \
+                        have == sorted(ns + name for name in alone.get_tags_with_attribute(a) if not _own_tag(alone, name)):
+                    cl = CL_STALE_COPY      # narrow: right names, right prefix, exactly the library's own tags are missing
+                    stale_own |= set(want) - set(have)
+                if have != want:
+                    w.fail(cl, dict(inp, namespace=ns), _head_diff(have, want), _head_diff(want, have))
+            try:
+                have = sorted(G.get_tags_with_attribute(a))
+            except Exception as e:  # noqa
+                have = "EXC " + repr(e)[:200]
+            cl = CL_STALE_COPY if stale_own and not isinstance(have, str) and have == sorted(union - stale_own) else CL_LOOKUP
+            if have != sorted(union):
+                w.fail(cl, dict(inp, namespace="(whole group)"), _head_diff(have, sorted(union)), _head_diff(sorted(union), have))
+    return n
+
+
+# ------------------------------------------------------------------------------------------------------------------
 # partnered vocabulary
 # ------------------------------------------------------------------------------------------------------------------
 def _xml_path(version):
@@ -649,7 +898,9 @@ def run(w: Workload):
               "standard and library tags: short/long form, value with/without/bad units, extensions; group shapes, duplicates, "
               "structural and reserved-tag cases; printable and non-printable non-ASCII text in values and extensions) are validated prefixed-with-p against the group and unprefixed against the "
               "member loaded alone; every 5th annotation is also tried under unloaded and non-alphabetic prefixes; plus the "
-              "partnered-vocabulary comparison over every standard entry and the refusal table")
+              "partnered-vocabulary comparison over every standard entry and the refusal table; configuration histories: (pairing, way "
+              "the schema object was used before it got / changed / lost its prefix, member namespace, annotation around the unique / "
+              "required tags or general annotation) and (pairing, way, member or group, attribute looked up)")
     n_tags = 25 if w.quick else 120
     gis = QUICK_GROUPS if w.quick else list(range(len(GROUPS)))
     for gi in gis:
@@ -664,6 +915,22 @@ def run(w: Workload):
                    "member alone}; %d sampled standard + %d library tags per member in ~5 spellings + ~60 composed annotations, "
                    "prefixed per member, every third also unprefixed, 40 two-namespace mixes; every second case validated with "
                    "the parsing schema first" % (n_hist, n_hist), exhaustive=False)
+    import shutil
+    import tempfile
+    folder = tempfile.mkdtemp(prefix="c13_")
+    try:
+        for pi in (range(3) if w.quick else range(len(CONFIG_PAIRINGS))):
+            n = run_config_history(w, pi, 3 if w.quick else 10, folder)
+            std_v, lib_v, p, edit = CONFIG_PAIRINGS[pi]
+            w.part("configuration history %s + %s%s as %s" % (std_v, lib_v, " (edited: %s)" % edit if edit else "", p), cases=n,
+                   bound="%d ways a schema object is used before it gets / changes / loses its prefix x {prefixed member, unprefixed or "
+                         "standard member} x (annotations around each unique and required tag: once, repeated, nested, long and "
+                         "lower-case spelling, with and without the required tag; + every second of the general annotations over %d "
+                         "sampled standard + %d library tags) + %d attribute look-ups per member and for the group"
+                         % (len(CONFIG_HISTORIES), 3 if w.quick else 10, 3 if w.quick else 10, len(LOOKUP_ATTRIBUTES)),
+                   exhaustive=False)
+    finally:
+        shutil.rmtree(folder, ignore_errors=True)
     for lib, std in (PARTNERS[:2] + PARTNERS[4:6] if w.quick else PARTNERS):
         n = run_partner(w, lib, std, 150 if w.quick else 0)
         w.part("partnered %s with %s" % (lib, std), cases=n, bound="every entry of the standard schema (tags, unit classes, units, "
@@ -687,13 +954,25 @@ def run(w: Workload):
         "annotations mixing tags of several namespaces in one string (the property only speaks of all-p and all-unprefixed; "
         "mixed annotations are used in the history part only, where the oracle is the freshly parsed string)",
         "definitions/def dictionaries across namespaces, sidecar/table entry points with schema groups",
+        "configuration histories: required tags exist in no bundled schema and are exercised on edited copies of testlib 2.0.0 / 3.0.0 "
+        "only, and only for the library member (a group advertises the required tags of all members, so the standard member of "
+        "such a group is not compared); pairings that straddle generation 8.3.0; mediawiki / tsv unmerged files; a second "
+        "library merged into an already used schema object (load_schema(..., schema=used))",
         "loader internals (base2schema merge) beyond the resulting vocabulary; mediawiki/tsv sources",
     ]
 
 
 def replay(w: Workload, case: dict):
     inp = case["input"]
-    if inp.get("history"):
+    if inp.get("config_history"):
+        import shutil
+        import tempfile
+        folder = tempfile.mkdtemp(prefix="c13_")
+        try:
+            run_config_history(w, inp["config_pairing"], 3, folder, count=False, only=inp)
+        finally:
+            shutil.rmtree(folder, ignore_errors=True)
+    elif inp.get("history"):
         run_history(w, inp["group_index"], 0, count=False, only=inp)
     elif "group_index" in inp:
         run_group(w, inp["group_index"], 0, count=False, only=inp["annotation"])
